@@ -7,6 +7,7 @@ static char bit(bool b) { return b ? '1' : '0'; }
 static std::string run(const hx::Sexp &e)
 {
     std::string kind = e[1].atom;
+    hxe::shareImportSources() = e.size() > 4 && e[4].atom == "share";
     EntityPtr a, b;
     if (kind == "units") { a = hxe::buildUnits(e[2]); b = hxe::buildUnits(e[3]); }
     else if (kind == "var") { a = hxe::buildVariable(e[2]); b = hxe::buildVariable(e[3]); }
@@ -25,7 +26,7 @@ int main()
     while (std::getline(std::cin, line)) {
         hx::Sexp e;
         size_t i = 0;
-        if (!hx::parseSexp(line, i, e) || e.head() != "eq" || e.size() != 4) { puts("bad-line"); continue; }
+        if (!hx::parseSexp(line, i, e) || e.head() != "eq" || e.size() < 4) { puts("bad-line"); continue; }
         std::string r = hx::forked([&]() { return run(e); });
         printf("%s\n", r.c_str());
         fflush(stdout);
